@@ -120,6 +120,14 @@ type _refHolder struct {
 	destinations []reflect.Value
 
 	value reflect.Value
+
+	// done: the list has been read to its end
+	done bool
+
+	// converted: the complete list as a value of another slice type (an untyped
+	// list referred to from a typed field), converted once per type and shared
+	// by all the references of that type
+	converted map[reflect.Type]reflect.Value
 }
 
 var _refHolderType = reflect.TypeOf(_refHolder{})
@@ -130,12 +138,40 @@ func (h *_refHolder) change(v reflect.Value) {
 		return
 	}
 	h.value = v
+	h.converted = nil
+}
+
+// valueAs returns the list as a value of the slice type typ
+func (h *_refHolder) valueAs(typ reflect.Type) (reflect.Value, error) {
+	if !h.value.IsValid() || h.value.Type() == typ {
+		return h.value, nil
+	}
+	if cv, ok := h.converted[typ]; ok {
+		return cv, nil
+	}
+	cv, err := ConvertSliceValueType(typ, h.value)
+	if err != nil {
+		return cv, err
+	}
+	if h.converted == nil {
+		h.converted = make(map[reflect.Type]reflect.Value)
+	}
+	h.converted[typ] = cv
+	return cv, nil
 }
 
 // notice all destinations ref to the value
 func (h *_refHolder) notify() {
 	for _, dest := range h.destinations {
-		SetValue(dest, h.value)
+		v := h.value
+		if typ := UnpackPtrType(dest.Type()); typ.Kind() == reflect.Slice && v.IsValid() && v.Type() != typ {
+			cv, err := h.valueAs(typ)
+			if err != nil || !cv.IsValid() {
+				continue
+			}
+			v = cv
+		}
+		SetValue(dest, v)
 	}
 }
 
